@@ -114,7 +114,7 @@ type c19subject struct {
 func c19values(p int) map[string]*variants.Variant {
 	return map[string]*variants.Variant{
 		"a": variants.VariantFromInteger(10*p + 1), "b": variants.VariantFromInteger(p + 2), "c": variants.VariantFromDouble(float64(p) + 0.5),
-		"d": variants.VariantFromLong(int64(100 * p)), "s": variants.VariantFromString(fmt.Sprintf("s%d", p)),
+		"d": variants.VariantFromLong(int64(-100 * p)), "s": variants.VariantFromString(fmt.Sprintf("s%d", p)),
 		"arr": variants.VariantFromArray([]*variants.Variant{variants.VariantFromInteger(p), variants.VariantFromInteger(p + 2), variants.VariantFromString("x"), variants.VariantFromDouble(float64(p) + 1.5)}),
 		"f": variants.VariantFromFloat(float32(p) + 0.25), "t": variants.VariantFromBoolean(p%2 == 0), "n": variants.EmptyVariant(),
 	}
@@ -149,7 +149,7 @@ func newC19subject(what, text string, procs int) (*c19subject, error) {
 			return nil, err
 		}
 		for p := 1; p <= procs; p++ {
-			m := map[string]string{"__proc": fmt.Sprint(p), "A": fmt.Sprintf("a%d", p), "b": []string{"", "yes"}[p%2], "C": fmt.Sprintf("c\"%d/", p), "d": []string{"dd", ""}[p%2]}
+			m := map[string]string{"__proc": fmt.Sprint(p), "a": fmt.Sprintf("a%d", p), "B": []string{"", "yes"}[p%2], "c": fmt.Sprintf("c\"%d/", p), "D": []string{"dd", ""}[p%2]}
 			s.envs = append(s.envs, m)
 		}
 	}
@@ -292,6 +292,8 @@ func execC19(seg []Ev) []Ev {
 		return execRepeat(in)
 	case "race":
 		return execRace(in)
+	case "iso":
+		return execIso(in)
 	}
 	panic("C19: segment must begin with start / rstart / race")
 }
@@ -412,6 +414,67 @@ func execRepeat(in Ev) []Ev {
 	}
 	out = append(out, Ev{"op": "rend", "snap": s.snapshot()})
 	return out
+}
+
+// separate instances: customising the function table / variables of one calculator must not be visible in another one
+func execIso(in Ev) []Ev {
+	names := func() string {
+		var sb strings.Builder
+		for _, f := range functions.NewDefaultFunctionCollection().GetAll() {
+			sb.WriteString(f.Name() + ",")
+		}
+		return sb.String()
+	}
+	evalOf := func(c *calculator.ExpressionCalculator) string {
+		var res string
+		oc, _ := guarded(func() {
+			v, err := c.Evaluate()
+			switch {
+			case err != nil:
+				res = "error:" + errCode(err)
+			case v == nil:
+				res = "nil"
+			default:
+				res = vtypeNames[v.Type()] + ":" + v.String()
+			}
+		})
+		if oc != "ok" {
+			return oc
+		}
+		return res
+	}
+	konst := func(name string, n int) functions.IFunction {
+		return functions.NewDelegatedFunction(name, func(p []*variants.Variant, o variants.IVariantOperations) (*variants.Variant, error) {
+			return variants.VariantFromInteger(n), nil
+		})
+	}
+	order := toInt(in["order"])
+	e := Ev{"op": "iso", "order": order, "names0": names()}
+	calcC := calculator.NewExpressionCalculator()
+	calcC.SetExpression("Max(1, 2) + Min(7, 9) + Abs(0 - 3)")
+	e["c1"] = evalOf(calcC)
+	calcA := calculator.NewExpressionCalculator()
+	if order%2 == 0 {
+		calcA.DefaultFunctions().RemoveByName("Ticks")
+	}
+	calcA.DefaultFunctions().Add(konst("Rate", 10))
+	calcA.SetExpression("Rate() + Max(1, 2) + Sum(1, 2)")
+	e["a1"] = evalOf(calcA)
+	calcB := calculator.NewExpressionCalculator()
+	if order%3 == 0 {
+		calcB.DefaultFunctions().RemoveByName("Max")
+		calcB.DefaultFunctions().Add(konst("Max", 99))
+	}
+	calcB.DefaultFunctions().Add(konst("Rate", 20))
+	calcB.DefaultVariables().Add(variables.NewVariable("shared", variants.VariantFromInteger(5)))
+	calcB.SetExpression("Rate() + Max(1, 2) + shared")
+	e["b1"] = evalOf(calcB)
+	e["a2"], e["c2"], e["b2"] = evalOf(calcA), evalOf(calcC), evalOf(calcB)
+	e["names1"] = names()
+	calcD := calculator.NewExpressionCalculator()
+	calcD.SetExpression("Max(1, 2) + Min(7, 9) + Abs(0 - 3)")
+	e["d"] = evalOf(calcD)
+	return []Ev{e}
 }
 
 func raceReports() int {
@@ -536,10 +599,13 @@ func genC19(g *Gen) {
 		}
 		return
 	}
+	for o := 0; o < 6; o++ {
+		g.Run("separate instances customise their own function tables", []Ev{{"op": "iso", "order": o}})
+	}
 	progs := []struct{ what, text string }{
 		{"calc", "a + b"}, {"calc", "a + b * c - d"}, {"calc", "Min(a, b) + c"}, {"calc", "arr[b - b] + Sum(c, d, a)"}, {"calc", "a IN arr AND s = 's1'"},
 		{"calc", "c ^ 2 + a"}, {"calc", "arr[3] ^ 2 - f ^ b"}, {"calc", "-c + Abs(c) + Round(f)"}, {"calc", "NOT t OR n IS NULL"}, {"calc", "s + a + c"},
-		{"calc", "If(n IS NULL, c, a) * c"}, {"calc", "Max(c, f) / c"}, {"calc", "a % b + (a << 1) - d"},
+		{"calc", "If(n IS NULL, c, a) * c"}, {"calc", "Abs(d) + d + Abs(-f)"}, {"calc", "Min(d, a) - Max(d, c)"}, {"calc", "Max(c, f) / c"}, {"calc", "a % b + (a << 1) - d"},
 		{"tmpl", "{{A}}{{C}}"}, {"tmpl", "Hi {{A}}{{#b}}[{{{C}}}]{{/b}}{{^d}}n{{/d}}"},
 	}
 	for _, pg := range progs {
